@@ -7,10 +7,21 @@ package harness
 // Histories of 5–60 operations are run through the REAL message handlers of the exchange module
 // (with the real hold and bank keepers behind them).  After every operation the harness reads back
 // every order, commitment and payment from the exchange store, every hold from the hold store and
-// the balances from the bank, and emits them as a Coq term of the shape of the model's state.
+// the balances from the bank, and emits them as a Coq term of the shape of the model's state; it also asks
+// the hold module's GetHolds gRPC query what it reports for every account.
+//
+// Besides the exchange messages the histories contain: delegations of the account's own funds (staking
+// MsgDelegate and the bank keeper's DelegateCoins route) -- the one bank route that looks at the locked
+// coins with the vesting bypass set --, block time moving over the end of the vesting schedules, governance
+// changing params and fees, markets switching their flags, and queries run on the history's own context.
+// Corners visited on purpose (BUILDING.md, "generator dimensions"): addresses of 20 / 32 bytes, one a prefix
+// of another, last byte 0xFF / 0x00, upper-case bech32; denoms that differ by case only, are prefixes of one
+// another, use / - . and have the maximum length, and the staking bond denom; empty, longest, non-ASCII and
+// recurring external ids; amounts around 2^63, 2^64, 2^65 and 2^64/k.
 
 import (
 	"fmt"
+	"math/big"
 	"math/rand"
 	"os"
 	"sort"
@@ -23,14 +34,24 @@ import (
 	authtypes "github.com/cosmos/cosmos-sdk/x/auth/types"
 	vesting "github.com/cosmos/cosmos-sdk/x/auth/vesting/types"
 	banktypes "github.com/cosmos/cosmos-sdk/x/bank/types"
+	stakingtypes "github.com/cosmos/cosmos-sdk/x/staking/types"
 
 	simapp "github.com/provenance-io/provenance/app"
 	"github.com/provenance-io/provenance/internal/pioconfig"
 	"github.com/provenance-io/provenance/x/exchange"
+	exchangekeeper "github.com/provenance-io/provenance/x/exchange/keeper"
 	"github.com/provenance-io/provenance/x/hold"
 )
 
-var c02Denoms = []string{"cna", "cnb", "cnc", "cnd"}
+// The traded denoms: two that differ only by case, one that has another as a prefix and uses every
+// special character this chain allows (IBC / factory style; its denom regex has no : or _), and the longest legal denom.
+var (
+	c02DA = "cna"
+	c02DB = "cnA"
+	c02DC = "cna/x-y.z9"
+	c02DD = "cnd" + strings.Repeat("z", 125)
+)
+var c02Denoms = []string{c02DA, c02DB, c02DC, c02DD}
 
 type c02World struct {
 	t       *testing.T
@@ -47,11 +68,18 @@ type c02World struct {
 	lastID  uint64
 	payN    int
 	pairs   [][2]string // (assets denom, price denom) used by this history
-	vesting map[string]bool // traders that are vesting accounts in this history
+	vesting map[string]bool // traders (by address bytes) that are vesting accounts in this history
+	bond    string           // the staking bond denom
+	val     string           // operator address of the chain's validator
+	all     []string         // every denom observed: c02Denoms and the bond denom
+	whale   map[string]bool  // traders (by address bytes) that own more than 2^64 of every funded denom
+	whales  []sdk.AccAddress
+	bondIn  bool             // the bond denom is one of the traded denoms of this history
+	vestEnd int64            // unix time at which the vesting schedules of this history end
 }
 
 const c02BipsMarket = 3 // charges the exchange's commitment settlement fee (bips, NAV conversion)
-const c02Interm = "cnd" // its intermediary denom
+var c02Interm = c02DD // its intermediary denom
 
 // ---------- observation ----------
 
@@ -60,6 +88,7 @@ type c02Obs struct {
 	commits []exchange.Commitment
 	pays    []*exchange.Payment
 	holds   []c02KV
+	qholds  []c02KV // the holds as the hold module's gRPC query REPORTS them, account by account
 	bals    []c02KV
 	vest    []c02KV
 	lastID  uint64
@@ -70,16 +99,37 @@ type c02KV struct {
 	v    sdkmath.Int
 }
 
+// addrKey identifies an account by its BYTES, however the bech32 string spells it (lower or UPPER case).
+func addrKey(addr string) string {
+	bz, err := sdk.AccAddressFromBech32(addr)
+	if err != nil {
+		return "?" + addr
+	}
+	return string(bz)
+}
+
+func sameAddr(a, b string) bool { return a == b || (a != "" && b != "" && addrKey(a) == addrKey(b)) }
+
 func (w *c02World) aid(addr string) int64 {
 	if addr == "" {
 		return 0
 	}
-	if id, ok := w.addrID[addr]; ok {
+	k := addrKey(addr)
+	if id, ok := w.addrID[k]; ok {
 		return id
 	}
 	id := int64(1000 + len(w.addrID))
-	w.addrID[addr] = id
+	w.addrID[k] = id
 	return id
+}
+
+// spell returns the account's address as a message would carry it: mostly lower case, sometimes the
+// (equally valid) UPPER-case bech32 spelling.
+func (w *c02World) spell(a sdk.AccAddress) string {
+	if w.pick(7) == 0 {
+		return strings.ToUpper(a.String())
+	}
+	return a.String()
 }
 
 func (w *c02World) did(denom string) int64 {
@@ -129,8 +179,21 @@ func (w *c02World) observe(ctx sdk.Context) *c02Obs {
 			ob.holds = append(ob.holds, c02KV{w.aid(ah.Address), w.did(c.Denom), c.Amount})
 		}
 	}
-	for _, a := range w.universe() {
-		for _, d := range c02Denoms {
+	for i, a := range w.universe() {
+		// "the amount reported as on hold": the GetHolds query, asked on the history's own context, with the
+		// address in either spelling
+		spelled := a.String()
+		if (i+len(ob.orders)+len(ob.pays))%2 == 0 {
+			spelled = strings.ToUpper(spelled)
+		}
+		resp, qerr := w.app.HoldKeeper.GetHolds(ctx, &hold.GetHoldsRequest{Address: spelled})
+		if qerr != nil {
+			w.t.Fatalf("GetHolds(%s): %v", spelled, qerr)
+		}
+		for _, c := range resp.Amount {
+			ob.qholds = append(ob.qholds, c02KV{w.aid(a.String()), w.did(c.Denom), c.Amount})
+		}
+		for _, d := range w.all {
 			b := w.app.BankKeeper.GetBalance(ctx, a, d)
 			ob.bals = append(ob.bals, c02KV{w.aid(a.String()), w.did(d), b.Amount})
 		}
@@ -265,9 +328,17 @@ func c02ValidateBasic(msg sdk.Msg) error {
 // execOn runs ValidateBasic and the real handler on a cache of ctx; the cache is written only when
 // asked for and the message succeeded.
 func (w *c02World) execOn(ctx sdk.Context, msg sdk.Msg, commit bool) c02Result {
+	return w.execOp(ctx, &c02Op{msg: msg}, commit)
+}
+
+func (w *c02World) execOp(ctx sdk.Context, op *c02Op, commit bool) c02Result {
 	cctx, write := ctx.CacheContext()
 	var resp any
+	msg := op.msg
 	err := try(func() error {
+		if op.call != nil { // a keeper call instead of a message
+			return op.call(cctx)
+		}
 		if e := c02ValidateBasic(msg); e != nil {
 			return e
 		}
@@ -293,15 +364,27 @@ func (w *c02World) execOn(ctx sdk.Context, msg sdk.Msg, commit bool) c02Result {
 	return c02Result{ok: true, resp: resp}
 }
 
-func (w *c02World) exec(msg sdk.Msg) c02Result { return w.execOn(w.ctx, msg, true) }
+func (w *c02World) exec(op *c02Op) c02Result {
+	if op.direct != nil { // something that is not a transaction (block time, a query): runs on the context itself
+		if err := try(func() error { return op.direct(w) }); err != nil {
+			return c02Result{ok: false, err: err}
+		}
+		return c02Result{ok: true}
+	}
+	return w.execOp(w.ctx, op, true)
+}
 
 // richAccepts answers: would the implementation accept this message if `who` had unlimited spendable
 // funds?  (Same state, same message, thrown away afterwards.)  A refusal that remains is not about funds.
 func (w *c02World) richAccepts(msg sdk.Msg, who sdk.AccAddress) bool {
+	return w.richAcceptsOp(&c02Op{msg: msg}, who)
+}
+
+func (w *c02World) richAcceptsOp(op *c02Op, who sdk.AccAddress) bool {
 	cctx, _ := w.ctx.CacheContext()
 	var cs sdk.Coins
-	for _, d := range c02Denoms {
-		cs = cs.Add(sdk.NewInt64Coin(d, 1_000_000_000_000_000))
+	for _, d := range w.all {
+		cs = cs.Add(sdk.NewCoin(d, sdkmath.NewIntFromBigInt(pow2(100))))
 	}
 	if err := try(func() error {
 		if e := w.app.BankKeeper.MintCoins(cctx, "mint", cs); e != nil {
@@ -311,7 +394,7 @@ func (w *c02World) richAccepts(msg sdk.Msg, who sdk.AccAddress) bool {
 	}); err != nil {
 		return false
 	}
-	return w.execOn(cctx, msg, false).ok
+	return w.execOp(cctx, op, false).ok
 }
 
 // ---------- generators ----------
@@ -326,6 +409,10 @@ type c02Op struct {
 	// nil means: the implementation's own answer (one-sided comparison).
 	adm  func(ok bool) bool
 	term func(adm, ok bool, before, after *c02Obs) string
+	// call: a keeper call run like a message (on a cache that is written on success);
+	// direct: not a transaction at all (block time moves, a query on the context whose writes persist).
+	call   func(ctx sdk.Context) error
+	direct func(w *c02World) error
 }
 
 func (w *c02World) pick(n int) int { return w.r.Intn(n) }
@@ -335,7 +422,7 @@ func (w *c02World) trader() sdk.AccAddress { return w.accts[w.pick(len(w.accts))
 func (w *c02World) otherTrader(not string) sdk.AccAddress {
 	for i := 0; i < 8; i++ {
 		a := w.trader()
-		if a.String() != not {
+		if !sameAddr(a.String(), not) {
 			return a
 		}
 	}
@@ -371,8 +458,7 @@ func (w *c02World) option(opts []sdk.Coin) *sdk.Coin {
 	return &c
 }
 
-func roundUpTo(x sdkmath.Int, m int64) sdkmath.Int {
-	mm := sdkmath.NewInt(m)
+func roundUpTo(x sdkmath.Int, mm sdkmath.Int) sdkmath.Int {
 	rem := x.Mod(mm)
 	if rem.IsZero() {
 		return x
@@ -382,8 +468,63 @@ func roundUpTo(x sdkmath.Int, m int64) sdkmath.Int {
 
 var c02AssetAmts = []int64{1, 2, 4, 6, 10, 20}
 
+// c02BigAmts: asset amounts around 2^63, 2^64 and 2^64/k for the k a fast path might multiply by.
+func c02BigAmts() []sdkmath.Int {
+	var out []sdkmath.Int
+	for _, b := range []*big.Int{pow2(63), pow2(64), pow2(65)} {
+		for _, d := range []int64{-1, 0, 1} {
+			out = append(out, sdkmath.NewIntFromBigInt(bigAdd(b, d)))
+		}
+	}
+	for _, k := range []int64{2, 100, 10000} {
+		q := new(big.Int).Quo(pow2(64), big.NewInt(k))
+		out = append(out, sdkmath.NewIntFromBigInt(q), sdkmath.NewIntFromBigInt(bigAdd(q, 1)))
+	}
+	return out
+}
+
+// below picks an amount in 1..x.
+func (w *c02World) below(x sdkmath.Int) sdkmath.Int {
+	switch {
+	case !x.IsPositive():
+		return sdkmath.OneInt()
+	case x.IsInt64():
+		return sdkmath.NewInt(1 + w.r.Int63n(x.Int64()))
+	default:
+		return x.QuoRaw(int64(2 + w.pick(3)))
+	}
+}
+
+// assetAmount: a small asset amount, or for a whale sometimes one beyond 64 bits.
+func (w *c02World) assetAmount(who sdk.AccAddress) sdkmath.Int {
+	if w.whale[string(who)] && w.pick(2) == 0 {
+		pool := c02BigAmts()
+		return pool[w.pick(len(pool))]
+	}
+	return sdkmath.NewInt(c02AssetAmts[w.pick(len(c02AssetAmts))])
+}
+
+// orderExtID: most orders carry no external id; some do (an index entry per market), sometimes one that is taken.
+func (w *c02World) orderExtID(before *c02Obs) string {
+	switch w.pick(10) {
+	case 0:
+		w.payN++
+		return fmt.Sprintf("order-%d", w.payN)
+	case 1:
+		w.payN++
+		return strings.Repeat("ö", 20) + fmt.Sprintf("%d", w.payN)
+	case 2:
+		for _, o := range before.orders {
+			if o.GetExternalID() != "" {
+				return o.GetExternalID() // taken (in that order's market)
+			}
+		}
+	}
+	return ""
+}
+
 // buyerFees computes settlement fees that satisfy the market for the given price.
-func (w *c02World) buyerFees(mkt *exchange.Market, price sdk.Coin, assetsAmt int64, partial bool) sdk.Coins {
+func (w *c02World) buyerFees(mkt *exchange.Market, price sdk.Coin, assetsAmt sdkmath.Int, partial bool) sdk.Coins {
 	var fees sdk.Coins
 	if f := w.option(mkt.FeeBuyerSettlementFlat); f != nil {
 		fees = fees.Add(*f)
@@ -411,7 +552,7 @@ func (w *c02World) buyerFees(mkt *exchange.Market, price sdk.Coin, assetsAmt int
 	}
 	if len(fees) == 0 && w.pick(6) == 0 {
 		// a voluntary fee in a market that asks for none
-		fees = sdk.NewCoins(sdk.NewInt64Coin(w.denoms[w.pick(len(w.denoms))], int64(1+w.pick(5))*assetsAmt))
+		fees = sdk.NewCoins(sdk.NewCoin(w.denoms[w.pick(len(w.denoms))], assetsAmt.MulRaw(int64(1+w.pick(5)))))
 	}
 	if partial {
 		out := sdk.Coins{}
@@ -423,7 +564,7 @@ func (w *c02World) buyerFees(mkt *exchange.Market, price sdk.Coin, assetsAmt int
 	return fees
 }
 
-func (w *c02World) sellerFlat(mkt *exchange.Market, priceDenom string, assetsAmt int64, partial bool) *sdk.Coin {
+func (w *c02World) sellerFlat(mkt *exchange.Market, priceDenom string, assetsAmt sdkmath.Int, partial bool) *sdk.Coin {
 	f := w.option(mkt.FeeSellerSettlementFlat)
 	if f == nil {
 		if w.pick(4) != 0 {
@@ -454,18 +595,18 @@ func (w *c02World) genCreateAsk(before *c02Obs) *c02Op {
 	mkt := w.app.ExchangeKeeper.GetMarket(w.ctx, m)
 	seller := w.trader()
 	ad, pd := w.pair()
-	amt := c02AssetAmts[w.pick(len(c02AssetAmts))]
+	amt := w.assetAmount(seller)
 	unit := int64(100 * (1 + w.pick(2)))
 	partial := w.pick(3) != 0
-	price := sdk.NewInt64Coin(pd, amt*unit)
-	assets := sdk.NewInt64Coin(ad, amt)
+	price := sdk.NewCoin(pd, amt.MulRaw(unit))
+	assets := sdk.NewCoin(ad, amt)
 	switch w.pick(14) {
 	case 0: // more than the account can have
-		assets = sdk.NewInt64Coin(ad, 1_000_000_000)
+		assets = sdk.NewCoin(ad, sdkmath.NewIntFromBigInt(pow2(90)))
 	case 1: // assets and price in the same denom: invalid
-		price = sdk.NewInt64Coin(ad, amt*unit)
+		price = sdk.NewCoin(ad, amt.MulRaw(unit))
 	}
-	ask := exchange.AskOrder{MarketId: m, Seller: seller.String(), Assets: assets, Price: price, AllowPartial: partial}
+	ask := exchange.AskOrder{MarketId: m, Seller: w.spell(seller), Assets: assets, Price: price, AllowPartial: partial, ExternalId: w.orderExtID(before)}
 	if mkt != nil {
 		ask.SellerSettlementFlatFee = w.sellerFlat(mkt, pd, amt, partial)
 	}
@@ -584,7 +725,7 @@ func (w *c02World) genWithdraw(before *c02Obs) *c02Op {
 	var amount sdk.Coins
 	for _, c := range bal {
 		if w.inHistory(c.Denom) || w.pick(3) == 0 {
-			amount = amount.Add(sdk.NewCoin(c.Denom, sdkmath.NewInt(1+w.r.Int63n(c.Amount.Int64()))))
+			amount = amount.Add(sdk.NewCoin(c.Denom, w.below(c.Amount)))
 		}
 	}
 	if amount.IsZero() {
@@ -615,14 +756,14 @@ func (w *c02World) genCreateBid(before *c02Obs) *c02Op {
 	mkt := w.app.ExchangeKeeper.GetMarket(w.ctx, m)
 	buyer := w.trader()
 	ad, pd := w.pair()
-	amt := c02AssetAmts[w.pick(len(c02AssetAmts))]
-	unit := int64(100 * (2 + w.pick(2)))
+	amt := w.assetAmount(buyer)
+	unit := sdkmath.NewInt(int64(100 * (2 + w.pick(2))))
 	partial := w.pick(3) != 0
 	// mirror an existing ask so that settlements find compatible pairs
 	if w.pick(10) < 6 {
 		var asks []*exchange.AskOrder
 		for _, o := range before.orders {
-			if o.IsAskOrder() && o.GetAskOrder().Seller != buyer.String() {
+			if o.IsAskOrder() && !sameAddr(o.GetAskOrder().Seller, buyer.String()) {
 				asks = append(asks, o.GetAskOrder())
 			}
 		}
@@ -631,32 +772,38 @@ func (w *c02World) genCreateBid(before *c02Obs) *c02Op {
 			m = a.MarketId
 			mkt = w.app.ExchangeKeeper.GetMarket(w.ctx, m)
 			ad, pd = a.Assets.Denom, a.Price.Denom
-			aa := a.Assets.Amount.Int64()
+			aa := a.Assets.Amount
 			switch w.pick(4) {
 			case 0:
-				if aa%2 == 0 {
-					amt = aa / 2
+				if aa.ModRaw(2).IsZero() {
+					amt = aa.QuoRaw(2)
 				} else {
 					amt = aa
 				}
 			case 1:
-				amt = aa * 2
+				amt = aa.MulRaw(2)
 			default:
 				amt = aa
 			}
-			au := a.Price.Amount.Int64() / aa
-			unit = au + int64(100*w.pick(2))
-			if unit <= 0 {
-				unit = 100
+			unit = a.Price.Amount.Quo(aa).AddRaw(int64(100 * w.pick(2)))
+			if !unit.IsPositive() {
+				unit = sdkmath.NewInt(100)
+			}
+			if !aa.IsInt64() && len(w.whales) > 0 {
+				// only a whale can pay for a whale's order
+				buyer = w.whales[w.pick(len(w.whales))]
+				if sameAddr(buyer.String(), a.Seller) {
+					buyer = w.whales[(w.pick(len(w.whales))+1)%len(w.whales)]
+				}
 			}
 		}
 	}
-	price := sdk.NewInt64Coin(pd, amt*unit)
-	assets := sdk.NewInt64Coin(ad, amt)
+	price := sdk.NewCoin(pd, amt.Mul(unit))
+	assets := sdk.NewCoin(ad, amt)
 	if w.pick(14) == 0 {
-		price = sdk.NewInt64Coin(pd, 1_000_000_000)
+		price = sdk.NewCoin(pd, sdkmath.NewIntFromBigInt(pow2(90)))
 	}
-	bid := exchange.BidOrder{MarketId: m, Buyer: buyer.String(), Assets: assets, Price: price, AllowPartial: partial}
+	bid := exchange.BidOrder{MarketId: m, Buyer: w.spell(buyer), Assets: assets, Price: price, AllowPartial: partial, ExternalId: w.orderExtID(before)}
 	if mkt != nil {
 		bid.BuyerSettlementFees = w.buyerFees(mkt, price, amt, partial)
 	}
@@ -832,6 +979,26 @@ func (w *c02World) genMarketSettle(before *c02Obs) *c02Op {
 	return &c02Op{kind: "market_settle", msg: msg, term: func(_, ok bool, b, a *c02Obs) string { return w.settleTerm(ok, ids, b, a) }}
 }
 
+// pinched finds a trader (not an owner of the listed orders) with something on hold whose balance covers
+// the coin but whose spendable amount does not.
+func (w *c02World) pinched(before *c02Obs, c sdk.Coin, orders []*exchange.Order) sdk.AccAddress {
+	d := w.did(c.Denom)
+	for _, i := range w.r.Perm(len(w.accts)) {
+		a := w.accts[i]
+		id := w.aid(a.String())
+		own := false
+		for _, o := range orders {
+			if sameAddr(o.GetOwner(), a.String()) {
+				own = true
+			}
+		}
+		if !own && before.get(before.holds, id, d).IsPositive() && before.bal(id, d).GTE(c.Amount) && before.spendable(id, d).LT(c.Amount) {
+			return a
+		}
+	}
+	return nil
+}
+
 func (w *c02World) genFillBids(before *c02Obs) *c02Op {
 	var cands []*c02Group
 	for _, g := range w.groups(before) {
@@ -869,7 +1036,7 @@ func (w *c02World) genFillBids(before *c02Obs) *c02Op {
 	for i := 0; i < 6; i++ {
 		clash := false
 		for _, b := range bids {
-			if b.GetOwner() == seller.String() {
+			if sameAddr(b.GetOwner(), seller.String()) {
 				clash = true
 			}
 		}
@@ -884,6 +1051,19 @@ func (w *c02World) genFillBids(before *c02Obs) *c02Op {
 	for _, b := range bids {
 		ids = append(ids, b.OrderId)
 		total = total.Add(b.GetAssets())
+	}
+	if len(total) > 0 && w.pick(2) == 0 {
+		// prefer a seller who owns the assets but can spend fewer: part is on hold for its OTHER obligations
+		if p := w.pinched(before, total[0], bids); p != nil {
+			seller = p
+		}
+	}
+	if len(total) > 0 && !total[0].Amount.IsInt64() {
+		for _, wh := range w.whales { // only a whale can deliver that much
+			if !sameAddr(wh.String(), bids[0].GetOwner()) {
+				seller = wh
+			}
+		}
 	}
 	if w.pick(12) == 0 {
 		total = total.Add(sdk.NewInt64Coin(g.ad, 1)) // wrong total
@@ -929,7 +1109,7 @@ func (w *c02World) genFillAsks(before *c02Obs) *c02Op {
 	for i := 0; i < 6; i++ {
 		clash := false
 		for _, a := range asks {
-			if a.GetOwner() == buyer.String() {
+			if sameAddr(a.GetOwner(), buyer.String()) {
 				clash = true
 			}
 		}
@@ -948,9 +1128,22 @@ func (w *c02World) genFillAsks(before *c02Obs) *c02Op {
 	if w.pick(12) == 0 {
 		total = total.AddAmount(sdkmath.NewInt(1))
 	}
+	if w.pick(2) == 0 {
+		// prefer a buyer who owns the price but can spend less: part is on hold for its OTHER obligations
+		if p := w.pinched(before, total, asks); p != nil {
+			buyer = p
+		}
+	}
+	if !total.Amount.IsInt64() {
+		for _, wh := range w.whales { // only a whale can pay that much
+			if !sameAddr(wh.String(), asks[0].GetOwner()) {
+				buyer = wh
+			}
+		}
+	}
 	msg := &exchange.MsgFillAsksRequest{Buyer: buyer.String(), MarketId: g.m, TotalPrice: total, AskOrderIds: ids}
 	if mkt != nil {
-		msg.BuyerSettlementFees = w.buyerFees(mkt, total, 1, false)
+		msg.BuyerSettlementFees = w.buyerFees(mkt, total, sdkmath.OneInt(), false)
 		msg.BidOrderCreationFee = w.option(mkt.FeeCreateBidFlat)
 	}
 	return &c02Op{kind: "fill_asks", msg: msg, term: func(_, ok bool, b, a *c02Obs) string { return w.settleTerm(ok, ids, b, a) }}
@@ -973,7 +1166,7 @@ func (w *c02World) genCommit(before *c02Obs) *c02Op {
 	if w.pick(12) == 0 {
 		amount = sdk.NewCoins(sdk.NewInt64Coin(w.denoms[0], 1_000_000_000))
 	}
-	msg := &exchange.MsgCommitFundsRequest{Account: acct.String(), MarketId: m, Amount: amount}
+	msg := &exchange.MsgCommitFundsRequest{Account: w.spell(acct), MarketId: m, Amount: amount}
 	if mkt != nil {
 		msg.CreationFee = w.option(mkt.FeeCreateCommitmentFlat)
 		if msg.CreationFee != nil && w.pick(12) == 0 {
@@ -993,7 +1186,7 @@ func (w *c02World) partOf(cs sdk.Coins) sdk.Coins {
 		if w.pick(2) == 0 || len(out) == 0 {
 			amt := c.Amount
 			if amt.GT(sdkmath.OneInt()) && w.pick(3) != 0 {
-				amt = sdkmath.NewInt(1 + w.r.Int63n(amt.Int64()))
+				amt = w.below(amt)
 			}
 			out = out.Add(sdk.NewCoin(c.Denom, amt))
 		}
@@ -1082,7 +1275,7 @@ func (w *c02World) genCommitSettle(before *c02Obs) *c02Op {
 	inputs = append(inputs, exchange.AccountAmount{Account: a.Account, Amount: inA})
 	if len(cs) > 1 && w.pick(3) != 0 {
 		b := cs[w.pick(len(cs))]
-		if b.Account != a.Account {
+		if !sameAddr(b.Account, a.Account) {
 			inB := w.partOf(b.Amount)
 			inputs = append(inputs, exchange.AccountAmount{Account: b.Account, Amount: inB})
 			outputs = append(outputs, exchange.AccountAmount{Account: b.Account, Amount: inA}, exchange.AccountAmount{Account: a.Account, Amount: inB})
@@ -1136,14 +1329,34 @@ func (w *c02World) genPayCreate(before *c02Obs) *c02Op {
 	src := w.trader()
 	w.payN++
 	ext := fmt.Sprintf("pay%d", w.payN)
+	switch w.pick(12) {
+	case 0, 1, 2:
+		ext = "" // a payment WITHOUT an external id: legal, and "" is a key like any other
+	case 3:
+		ext = fmt.Sprintf("p%d", w.payN%3) // short ids that come back (and are prefixes of "pay..")
+	case 4:
+		ext = strings.Repeat("e", exchange.MaxExternalIDLength-len(ext)) + ext // the longest legal id
+	case 5:
+		ext = fmt.Sprintf("zahlung-äöü-五-%d", w.payN) // not ASCII
+	}
 	if len(before.pays) > 0 && w.pick(10) == 0 {
 		p := before.pays[w.pick(len(before.pays))]
 		src, _ = sdk.AccAddressFromBech32(p.Source)
 		ext = p.ExternalId // duplicate
 	}
+	if w.pick(3) == 0 {
+		// a source that already has a payment without external id outstanding tries another one
+		for _, p := range before.pays {
+			if p.ExternalId == "" {
+				src, _ = sdk.AccAddressFromBech32(p.Source)
+				ext = ""
+				break
+			}
+		}
+	}
 	target := ""
 	if w.pick(5) != 0 {
-		target = w.otherTrader(src.String()).String()
+		target = w.spell(w.otherTrader(src.String()))
 	}
 	var samt, tamt sdk.Coins
 	switch w.pick(6) {
@@ -1157,7 +1370,26 @@ func (w *c02World) genPayCreate(before *c02Obs) *c02Op {
 		samt = w.someCoins(300)
 		tamt = w.someCoins(300)
 	}
-	pay := exchange.Payment{Source: src.String(), SourceAmount: samt, Target: target, TargetAmount: tamt, ExternalId: ext}
+	if target != "" && w.pick(3) == 0 {
+		// the target is asked for more than it can spend but not more than it owns: part of it is on hold for
+		// the target's OTHER obligations, so accepting must be refused
+		ta := w.aid(target)
+		for _, kv := range before.holds {
+			if kv.a == ta && kv.v.IsPositive() {
+				sp := before.spendable(ta, kv.d)
+				if sp.IsNegative() {
+					sp = sdkmath.ZeroInt()
+				}
+				for _, d := range w.all {
+					if w.did(d) == kv.d {
+						tamt = sdk.NewCoins(sdk.NewCoin(d, sp.Add(w.below(kv.v))))
+					}
+				}
+				break
+			}
+		}
+	}
+	pay := exchange.Payment{Source: w.spell(src), SourceAmount: samt, Target: target, TargetAmount: tamt, ExternalId: ext}
 	msg := &exchange.MsgCreatePaymentRequest{Payment: pay}
 	return &c02Op{kind: "payment_create", msg: msg,
 		adm: func(bool) bool { return c02ValidateBasic(msg) == nil },
@@ -1171,11 +1403,33 @@ func (w *c02World) genPayAccept(before *c02Obs) *c02Op {
 		return nil
 	}
 	p := *before.pays[w.pick(len(before.pays))]
+	if w.pick(2) == 0 {
+		// prefer a payment whose target owns what it is asked for but cannot spend it (on hold for the
+		// target's other obligations)
+		for _, i := range w.r.Perm(len(before.pays)) {
+			q := before.pays[i]
+			if q.Target == "" {
+				continue
+			}
+			ta := w.aid(q.Target)
+			for _, c := range q.TargetAmount {
+				d := w.did(c.Denom)
+				if before.get(before.holds, ta, d).IsPositive() && before.bal(ta, d).GTE(c.Amount) && before.spendable(ta, d).LT(c.Amount) {
+					p = *q
+				}
+			}
+		}
+	}
 	switch w.pick(8) {
 	case 0:
 		p.SourceAmount = p.SourceAmount.Add(sdk.NewInt64Coin(w.denoms[0], 1)) // not what was agreed
 	case 1:
-		p.Target = w.otherTrader(p.Source).String()
+		// somebody else claims to be the target (AcceptPayment compares the stored STRING, so the same account
+		// in another spelling would count as somebody else too: not generated, spelling is outside the model)
+		nt := w.otherTrader(p.Source).String()
+		if !sameAddr(nt, p.Target) {
+			p.Target = nt
+		}
 	}
 	msg := &exchange.MsgAcceptPaymentRequest{Payment: p}
 	return &c02Op{kind: "payment_accept", msg: msg,
@@ -1195,8 +1449,12 @@ func (w *c02World) genPayReject(before *c02Obs) *c02Op {
 		target = w.trader().String()
 	}
 	msg := &exchange.MsgRejectPaymentRequest{Target: target, Source: p.Source, ExternalId: p.ExternalId}
+	// RejectPayment compares the STORED target string with the canonical spelling of the signer: a payment
+	// whose target was given in upper case cannot be rejected this way (only through MsgRejectPayments, which
+	// goes by the index).  Spelling is outside the model (it identifies accounts by their bytes).
+	canon := p.Target == strings.ToLower(p.Target) || !sameAddr(target, p.Target)
 	return &c02Op{kind: "payment_reject", msg: msg,
-		adm: func(bool) bool { return c02ValidateBasic(msg) == nil },
+		adm: func(bool) bool { return canon && c02ValidateBasic(msg) == nil },
 		term: func(adm, _ bool, _, _ *c02Obs) string {
 			return fmt.Sprintf("OPayReject %s %d %d %d", coqBool(adm), w.aid(target), w.aid(p.Source), w.eid(p.ExternalId))
 		}}
@@ -1217,7 +1475,7 @@ func (w *c02World) genPayRejectAll(before *c02Obs) *c02Op {
 	sources := []string{p.Source}
 	if w.pick(3) == 0 {
 		for _, q := range withTarget {
-			if q.Target == target && q.Source != p.Source {
+			if sameAddr(q.Target, target) && !sameAddr(q.Source, p.Source) {
 				sources = append(sources, q.Source)
 				break
 			}
@@ -1248,7 +1506,7 @@ func (w *c02World) genPayCancel(before *c02Obs) *c02Op {
 	p := before.pays[w.pick(len(before.pays))]
 	exts := []string{p.ExternalId}
 	for _, q := range before.pays {
-		if q.Source == p.Source && q.ExternalId != p.ExternalId && w.pick(2) == 0 {
+		if sameAddr(q.Source, p.Source) && q.ExternalId != p.ExternalId && w.pick(2) == 0 {
 			exts = append(exts, q.ExternalId)
 		}
 	}
@@ -1278,11 +1536,17 @@ func (w *c02World) genPayRetarget(before *c02Obs) *c02Op {
 	nt := ""
 	switch w.pick(5) {
 	case 0:
-		nt = p.Target // unchanged: rejected
+		nt = p.Target // unchanged: rejected (UpdatePaymentTarget compares strings: only in the canonical spelling)
+		if nt != strings.ToLower(nt) {
+			nt = w.otherTrader(p.Source).String()
+		}
 	case 1:
 		nt = ""
 	default:
 		nt = w.otherTrader(p.Source).String()
+	}
+	if p.Target != strings.ToLower(p.Target) && sameAddr(nt, p.Target) {
+		return nil // the same account in another spelling counts as a change for UpdatePaymentTarget: not modelled
 	}
 	msg := &exchange.MsgChangePaymentTargetRequest{Source: p.Source, ExternalId: p.ExternalId, NewTarget: nt}
 	return &c02Op{kind: "payment_retarget", msg: msg,
@@ -1346,7 +1610,9 @@ func (w *c02World) genManageFees(before *c02Obs) *c02Op {
 }
 
 // genReopen switches order / commitment acceptance of a market (back) on; no effect on holds.
-func (w *c02World) genReopen(before *c02Obs) *c02Op {
+func (w *c02World) genReopen(before *c02Obs) *c02Op { return w.genFlags(before, true) }
+
+func (w *c02World) genFlags(before *c02Obs, closed bool) *c02Op {
 	m := w.market()
 	var msg sdk.Msg
 	mkt := w.app.ExchangeKeeper.GetMarket(w.ctx, m)
@@ -1355,6 +1621,19 @@ func (w *c02World) genReopen(before *c02Obs) *c02Op {
 		msg = &exchange.MsgMarketUpdateAcceptingOrdersRequest{Admin: w.admin.String(), MarketId: m, AcceptingOrders: true}
 	case mkt != nil && !mkt.AcceptingCommitments:
 		msg = &exchange.MsgMarketUpdateAcceptingCommitmentsRequest{Admin: w.admin.String(), MarketId: m, AcceptingCommitments: true}
+	case mkt != nil && !mkt.AllowUserSettlement:
+		msg = &exchange.MsgMarketUpdateUserSettleRequest{Admin: w.admin.String(), MarketId: m, AllowUserSettlement: true}
+	case mkt != nil && !closed && w.pick(3) == 0:
+		// the other direction: the market stops taking orders / commitments / user settlements while
+		// items are open in it (every status of the market on every later operation)
+		switch w.pick(3) {
+		case 0:
+			msg = &exchange.MsgMarketUpdateAcceptingOrdersRequest{Admin: w.admin.String(), MarketId: m, AcceptingOrders: false}
+		case 1:
+			msg = &exchange.MsgMarketUpdateAcceptingCommitmentsRequest{Admin: w.admin.String(), MarketId: m, AcceptingCommitments: false}
+		default:
+			msg = &exchange.MsgMarketUpdateUserSettleRequest{Admin: w.admin.String(), MarketId: m, AllowUserSettlement: false}
+		}
 	case w.pick(4) != 0:
 		return nil
 	default: // already on: rejected
@@ -1377,6 +1656,183 @@ func (w *c02World) genCloseMarket(before *c02Obs) *c02Op {
 	}}
 }
 
+// genDelegate: the account delegates its own funds to the chain's validator (staking MsgDelegate, which ends
+// in the bank's DelegateCoins), or DelegateCoins is called the way a module would.  Delegation is the one
+// bank route that may use coins that are still vesting; coins ON HOLD must stay.  The amounts sit around
+// balance - hold (what may go), balance - hold - vesting (what is spendable) and the balance itself.
+func (w *c02World) genDelegate(before *c02Obs) *c02Op {
+	denom := w.bond
+	direct := w.pick(4) == 0 // the keeper route takes any denom
+	if direct && w.pick(2) == 0 {
+		denom = w.denoms[w.pick(len(w.denoms))]
+	}
+	did := w.did(denom)
+	// prefer an account with something on hold in that denom
+	who := w.trader()
+	for i := 0; i < 6; i++ {
+		if before.get(before.holds, w.aid(who.String()), did).IsPositive() {
+			break
+		}
+		who = w.trader()
+	}
+	a := w.aid(who.String())
+	bal, held, vest := before.bal(a, did), before.get(before.holds, a, did), before.get(before.vest, a, did)
+	free := bal.Sub(held)
+	var amt sdkmath.Int
+	switch w.pick(9) {
+	case 0:
+		amt = free // everything that is not on hold
+	case 1:
+		amt = free.AddRaw(1) // one more than that
+	case 2:
+		amt = bal // everything, held funds included
+	case 3:
+		amt = free.SubRaw(1)
+	case 4:
+		amt = free.Sub(vest).AddRaw(1) // one more than is spendable: needs a vesting coin
+	case 5:
+		amt = held // as much as is on hold
+	case 6:
+		amt = free.AddRaw(int64(1 + w.pick(50)))
+	default:
+		if free.IsPositive() && free.IsInt64() {
+			amt = sdkmath.NewInt(1 + w.r.Int63n(free.Int64()))
+		} else {
+			amt = sdkmath.NewInt(int64(1 + w.pick(100)))
+		}
+	}
+	if !amt.IsPositive() {
+		amt = sdkmath.NewInt(int64(1 + w.pick(100)))
+	}
+	coins := sdk.NewCoins(sdk.NewCoin(denom, amt))
+	if direct && w.pick(3) == 0 {
+		d2 := w.denoms[w.pick(len(w.denoms))]
+		if d2 != denom {
+			b2, h2 := before.bal(a, w.did(d2)), before.get(before.holds, a, w.did(d2))
+			x := b2.Sub(h2).AddRaw(int64(w.pick(3) - 1))
+			if x.IsPositive() {
+				coins = coins.Add(sdk.NewCoin(d2, x))
+			}
+		}
+	}
+	op := &c02Op{kind: "delegate"}
+	if direct {
+		op.kind = "delegate_keeper"
+		op.call = func(ctx sdk.Context) error {
+			return w.app.BankKeeper.DelegateCoinsFromAccountToModule(ctx, who, stakingtypes.BondedPoolName, coins)
+		}
+	} else {
+		val := w.val
+		if w.pick(15) == 0 {
+			val = sdk.ValAddress(who).String() // not a validator
+		}
+		c := coins[0]
+		if w.pick(12) == 0 {
+			c = sdk.NewCoin(w.denoms[0], amt) // maybe not the bond denom
+		}
+		coins = sdk.NewCoins(c)
+		op.msg = &stakingtypes.MsgDelegate{DelegatorAddress: w.spell(who), ValidatorAddress: val, Amount: c}
+	}
+	// outside the model: the validator exists, the denom is the bond denom (asked of the implementation in a
+	// copy of the state where the delegator has unlimited funds)
+	op.adm = func(ok bool) bool { return ok || w.richAcceptsOp(op, who) }
+	op.term = func(adm, _ bool, _, _ *c02Obs) string {
+		return fmt.Sprintf("ODelegate %s %d %s", coqBool(adm), a, w.coinsT(coins))
+	}
+	return op
+}
+
+// genTime moves the block time on (never back): to just before, exactly at, and past the end of the vesting
+// schedules, or somewhere in between.  The vesting locks observed afterwards are the operation's input.
+func (w *c02World) genTime(before *c02Obs) *c02Op {
+	now := w.ctx.BlockTime()
+	var next time.Time
+	end := time.Unix(w.vestEnd, 0).UTC()
+	switch w.pick(6) {
+	case 0:
+		next = end.Add(-time.Nanosecond)
+	case 1:
+		next = end
+	case 2:
+		next = end.Add(time.Duration(1+w.pick(100)) * time.Second)
+	default:
+		next = now.Add(time.Duration(1+w.pick(400)) * time.Second)
+	}
+	if !next.After(now) {
+		next = now.Add(time.Second)
+	}
+	return &c02Op{kind: "time", direct: func(w *c02World) error {
+		w.ctx = w.ctx.WithBlockTime(next)
+		return nil
+	}, term: func(_, ok bool, _, after *c02Obs) string {
+		return fmt.Sprintf("OTime %s %s", coqBool(ok), w.kvT(after.vest))
+	}}
+}
+
+// genQuery runs one of the modules' gRPC queries on the history's own context (whatever a query writes
+// would persist): nothing may change.
+func (w *c02World) genQuery(before *c02Obs) *c02Op {
+	who := w.spell(w.trader())
+	m := w.market()
+	n := w.pick(12)
+	return &c02Op{kind: "query", direct: func(w *c02World) error {
+		q := exchangekeeper.NewQueryServer(w.app.ExchangeKeeper)
+		var err error
+		switch n {
+		case 0:
+			_, err = w.app.HoldKeeper.GetAllHolds(w.ctx, &hold.GetAllHoldsRequest{})
+		case 1:
+			_, err = q.GetOwnerOrders(w.ctx, &exchange.QueryGetOwnerOrdersRequest{Owner: who})
+		case 2:
+			_, err = q.GetMarketOrders(w.ctx, &exchange.QueryGetMarketOrdersRequest{MarketId: m})
+		case 3:
+			_, err = q.GetAllOrders(w.ctx, &exchange.QueryGetAllOrdersRequest{})
+		case 4:
+			_, err = q.GetAccountCommitments(w.ctx, &exchange.QueryGetAccountCommitmentsRequest{Account: who})
+		case 5:
+			_, err = q.GetMarketCommitments(w.ctx, &exchange.QueryGetMarketCommitmentsRequest{MarketId: m})
+		case 6:
+			_, err = q.GetAllCommitments(w.ctx, &exchange.QueryGetAllCommitmentsRequest{})
+		case 7:
+			_, err = q.GetPaymentsWithSource(w.ctx, &exchange.QueryGetPaymentsWithSourceRequest{Source: who})
+		case 8:
+			_, err = q.GetPaymentsWithTarget(w.ctx, &exchange.QueryGetPaymentsWithTargetRequest{Target: who})
+		case 9:
+			_, err = q.GetAllPayments(w.ctx, &exchange.QueryGetAllPaymentsRequest{})
+		case 10:
+			_, err = q.GetMarket(w.ctx, &exchange.QueryGetMarketRequest{MarketId: m})
+		default:
+			_, err = w.app.BankKeeper.SpendableBalances(w.ctx, &banktypes.QuerySpendableBalancesRequest{Address: strings.ToLower(who)})
+		}
+		return err
+	}, term: func(_, ok bool, _, _ *c02Obs) string {
+		return fmt.Sprintf("OManageFees %s", coqBool(ok))
+	}}
+}
+
+// genParams: governance changes the exchange's params in the middle of a history (the exchange's share of
+// the fees -- only the untracked fee recipients see it -- and the payment fees).
+func (w *c02World) genParams(before *c02Obs) *c02Op {
+	authority := w.app.ExchangeKeeper.GetAuthority()
+	if w.pick(8) == 0 {
+		authority = w.admin.String()
+	}
+	params := exchange.Params{DefaultSplit: uint32(w.pick(4)) * 2500}
+	if w.pick(2) == 0 {
+		params.DenomSplits = []exchange.DenomSplit{{Denom: w.denoms[w.pick(len(w.denoms))], Split: uint32(w.pick(10001))}}
+	}
+	if w.pick(2) == 0 {
+		params.FeeCreatePaymentFlat = []sdk.Coin{sdk.NewInt64Coin(w.denoms[0], int64(1+w.pick(5)))}
+	}
+	if w.pick(2) == 0 {
+		params.FeeAcceptPaymentFlat = []sdk.Coin{sdk.NewInt64Coin(w.denoms[w.pick(len(w.denoms))], int64(1+w.pick(5)))}
+	}
+	msg := &exchange.MsgUpdateParamsRequest{Authority: authority, Params: params}
+	return &c02Op{kind: "update_params", msg: msg, term: func(_, ok bool, _, _ *c02Obs) string {
+		return fmt.Sprintf("OManageFees %s", coqBool(ok))
+	}}
+}
+
 type c02Gen struct {
 	weight int
 	f      func(*c02Obs) *c02Op
@@ -1387,8 +1843,14 @@ func (w *c02World) nextOp(before *c02Obs, closed bool) *c02Op {
 		{14, w.genCreateAsk}, {14, w.genCreateBid}, {7, w.genCancel}, {12, w.genMarketSettle},
 		{5, w.genFillBids}, {5, w.genFillAsks}, {8, w.genCommit}, {5, w.genRelease}, {5, w.genCommitSettle},
 		{7, w.genPayCreate}, {4, w.genPayAccept}, {3, w.genPayReject}, {2, w.genPayRejectAll},
-		{3, w.genPayCancel}, {2, w.genPayRetarget}, {2, w.genManageFees}, {1, w.genCloseMarket}, {1, w.genReopen},
+		{3, w.genPayCancel}, {2, w.genPayRetarget}, {2, w.genManageFees}, {1, w.genCloseMarket}, {2, func(b *c02Obs) *c02Op { return w.genFlags(b, false) }},
 		{6, w.genCreateAskFeeInAssets}, {2, w.genSetExtID}, {2, w.genWithdraw},
+		{2, w.genTime}, {2, w.genQuery}, {1, w.genParams},
+	}
+	if w.bondIn {
+		gens = append(gens, c02Gen{9, w.genDelegate})
+	} else {
+		gens = append(gens, c02Gen{2, w.genDelegate})
 	}
 	if closed {
 		gens = append(gens, c02Gen{12, w.genReopen})
@@ -1414,18 +1876,17 @@ func (w *c02World) nextOp(before *c02Obs, closed bool) *c02Op {
 
 // ---------- set-up ----------
 
-func c02Coins(s string) []sdk.Coin {
-	cs, err := sdk.ParseCoinsNormalized(s)
-	if err != nil {
-		panic(err)
+// c02Coins(2, "cna", 3, "cnA") = 2cna,3cnA (sorted)
+func c02Coins(args ...any) []sdk.Coin {
+	var cs sdk.Coins
+	for i := 0; i+1 < len(args); i += 2 {
+		cs = cs.Add(sdk.NewInt64Coin(args[i+1].(string), int64(args[i].(int))))
 	}
 	return cs
 }
 
-func c02Ratio(price, fee string) exchange.FeeRatio {
-	p, _ := sdk.ParseCoinNormalized(price)
-	f, _ := sdk.ParseCoinNormalized(fee)
-	return exchange.FeeRatio{Price: p, Fee: f}
+func c02Ratio(pa int64, pd string, fa int64, fd string) exchange.FeeRatio {
+	return exchange.FeeRatio{Price: sdk.NewInt64Coin(pd, pa), Fee: sdk.NewInt64Coin(fd, fa)}
 }
 
 func c02Setup(t *testing.T, app *simapp.App, ctx sdk.Context, admin sdk.AccAddress) {
@@ -1434,15 +1895,15 @@ func c02Setup(t *testing.T, app *simapp.App, ctx sdk.Context, admin sdk.AccAddre
 	mk := []exchange.Market{
 		{
 			MarketId: 1, MarketDetails: exchange.MarketDetails{Name: "fees"},
-			FeeCreateAskFlat:          c02Coins("2cna,3cnc"),
-			FeeCreateBidFlat:          c02Coins("3cnb,1cnc"),
-			FeeSellerSettlementFlat:   c02Coins("4cna,5cnb,6cnc"),
-			FeeSellerSettlementRatios: []exchange.FeeRatio{c02Ratio("100cnb", "1cnb"), c02Ratio("50cna", "1cna")},
-			FeeBuyerSettlementFlat:    c02Coins("3cna,4cnb"),
-			FeeBuyerSettlementRatios:  []exchange.FeeRatio{c02Ratio("100cnb", "2cnb"), c02Ratio("100cnb", "1cna"), c02Ratio("100cna", "1cna")},
+			FeeCreateAskFlat:          c02Coins(2, c02DA, 3, c02DC),
+			FeeCreateBidFlat:          c02Coins(3, c02DB, 1, c02DC),
+			FeeSellerSettlementFlat:   c02Coins(4, c02DA, 5, c02DB, 6, c02DC),
+			FeeSellerSettlementRatios: []exchange.FeeRatio{c02Ratio(100, c02DB, 1, c02DB), c02Ratio(50, c02DA, 1, c02DA)},
+			FeeBuyerSettlementFlat:    c02Coins(3, c02DA, 4, c02DB),
+			FeeBuyerSettlementRatios:  []exchange.FeeRatio{c02Ratio(100, c02DB, 2, c02DB), c02Ratio(100, c02DB, 1, c02DA), c02Ratio(100, c02DA, 1, c02DA)},
 			AcceptingOrders:           true, AllowUserSettlement: true, AccessGrants: grants,
 			AcceptingCommitments:    true,
-			FeeCreateCommitmentFlat: c02Coins("1cna"),
+			FeeCreateCommitmentFlat: c02Coins(1, c02DA),
 		},
 		{
 			MarketId: 2, MarketDetails: exchange.MarketDetails{Name: "free"},
@@ -1451,7 +1912,7 @@ func c02Setup(t *testing.T, app *simapp.App, ctx sdk.Context, admin sdk.AccAddre
 		{
 			MarketId: c02BipsMarket, MarketDetails: exchange.MarketDetails{Name: "bips"},
 			AcceptingOrders: true, AllowUserSettlement: true, AccessGrants: grants, AcceptingCommitments: true,
-			FeeCreateCommitmentFlat:  c02Coins("1cnb"),
+			FeeCreateCommitmentFlat:  c02Coins(1, c02DB),
 			CommitmentSettlementBips: 25, IntermediaryDenom: c02Interm,
 		},
 	}
@@ -1475,32 +1936,70 @@ func (w *c02World) newHistory(base sdk.Context) {
 	w.addrID = map[string]int64{}
 	w.extID = map[string]int64{}
 	w.denomID = map[string]int64{}
-	for i, d := range c02Denoms {
+	for i, d := range w.all {
 		w.denomID[d] = int64(i + 1)
 	}
-	w.denoms = c02Denoms[:nD]
+	w.denoms = append([]string{}, c02Denoms[:nD]...)
+	funded := append([]string{}, c02Denoms[:nD]...)
+	// a third of the histories trade the staking BOND denom (orders, commitments and payments in it can
+	// meet delegations)
+	w.bondIn = w.pick(3) == 0
+	if w.bondIn {
+		w.denoms[w.pick(nD)] = w.bond
+	}
+	if w.bondIn || w.pick(3) == 0 {
+		funded = append(funded, w.bond)
+	}
+	// address shapes: 20 bytes (last byte 0xFF / 0x00 / other), 32 bytes, and a 32-byte address whose first
+	// 20 bytes ARE another trader's address
+	shape := w.pick(3)
 	for i := 0; i < nA; i++ {
 		a := addrN(200 + i)
+		switch {
+		case shape == 1 && i == 1, shape == 2 && i == 2:
+			b := make([]byte, 32)
+			copy(b, fmt.Sprintf("verifaddr32_%09d_long_______", 200+i))
+			b[31] = []byte{0xFF, 0x00, 'x'}[w.pick(3)]
+			a = sdk.AccAddress(b)
+		case shape == 2 && i == 1:
+			b := append(append([]byte{}, w.accts[0]...), []byte("_and_more___")...)
+			a = sdk.AccAddress(b)
+		}
 		w.accts = append(w.accts, a)
-		w.addrID[a.String()] = int64(i + 1)
+		w.addrID[string(a)] = int64(i + 1)
 	}
-	w.addrID[w.admin.String()] = int64(nA + 1)
+	w.addrID[string(w.admin)] = int64(nA + 1)
 	w.markets = nil
 	for _, i := range w.r.Perm(3)[:nM] {
 		w.markets = append(w.markets, []uint32{1, 2, c02BipsMarket}[i])
 	}
 	sort.Slice(w.markets, func(i, j int) bool { return w.markets[i] < w.markets[j] })
 	w.vesting = map[string]bool{}
+	w.whale = map[string]bool{}
+	w.whales = nil
+	big := w.pick(4) == 0 // a quarter of the histories have two whales trading amounts beyond 64 bits
 	w.lastID = 0
 	w.payN = 0
+	w.vestEnd = w.ctx.BlockTime().Unix() + 1000
 	// traded pairs
 	w.pairs = [][2]string{{w.denoms[0], w.denoms[1]}}
 	if w.pick(2) == 0 {
 		w.pairs = append(w.pairs, [2]string{w.denoms[nD-1], w.denoms[(nD-1+1)%nD]})
 	}
-	for _, a := range w.accts {
+	for i, a := range w.accts {
+		if big && i >= nA-2 {
+			var cs sdk.Coins
+			for _, d := range funded {
+				cs = cs.Add(sdk.NewCoin(d, sdkmath.NewIntFromBigInt(pow2(80)).AddRaw(w.r.Int63n(1000))))
+			}
+			ensureAccount(w.app, w.ctx, a)
+			fund(w.t, w.app, w.ctx, a, cs)
+			w.whale[string(a)] = true
+			w.whales = append(w.whales, a)
+			continue
+		}
 		var cs sdk.Coins
-		for _, d := range w.denoms {
+		for _, d := range funded {
 			amt := int64(50_000)
 			switch w.pick(6) {
 			case 0:
@@ -1524,7 +2023,7 @@ func (w *c02World) newHistory(base sdk.Context) {
 			}
 			ov = sdk.NewCoins(ov...)
 			if !ov.IsZero() {
-				bva, err := vesting.NewBaseVestingAccount(authtypes.NewBaseAccountWithAddress(a), ov, now+1000)
+				bva, err := vesting.NewBaseVestingAccount(authtypes.NewBaseAccountWithAddress(a), ov, w.vestEnd)
 				if err != nil {
 					w.t.Fatalf("vesting account: %v", err)
 				}
@@ -1533,7 +2032,7 @@ func (w *c02World) newHistory(base sdk.Context) {
 					va = vesting.NewContinuousVestingAccountRaw(bva, now-1000) // half way: about half is still locked
 				}
 				w.app.AccountKeeper.SetAccount(w.ctx, w.app.AccountKeeper.NewAccount(w.ctx, va))
-				w.vesting[a.String()] = true
+				w.vesting[string(a)] = true
 			}
 		}
 		ensureAccount(w.app, w.ctx, a)
@@ -1697,7 +2196,7 @@ func (w *c02World) runHistory(cw *CaseWriter, exact bool, nOps int, desc map[str
 	before := init
 	for i := 0; i < nOps; i++ {
 		op := w.nextOp(before, closed)
-		res := w.exec(op.msg)
+		res := w.exec(op)
 		if res.ok {
 			switch v := res.resp.(type) {
 			case *exchange.MsgCreateAskResponse:
@@ -1719,10 +2218,11 @@ func (w *c02World) runHistory(cw *CaseWriter, exact bool, nOps int, desc map[str
 			}
 		}
 		opT := op.term(adm, res.ok, before, after)
-		steps = append(steps, fmt.Sprintf("(%s, %s, %s)", opT, coqBool(res.ok), w.stateT(after)))
+		steps = append(steps, fmt.Sprintf("(%s, %s, %s, %s)", opT, coqBool(res.ok), w.stateT(after), w.kvT(after.qholds)))
 		trace = append(trace, fmt.Sprintf("%s => %v", opT, res.ok))
 		cw.Count("ops")
 		cw.Count("op_" + op.kind)
+		w.countShapes(cw, op, res.ok, before)
 		if res.ok {
 			accepted++
 			cw.Count("ops_accepted")
@@ -1731,10 +2231,10 @@ func (w *c02World) runHistory(cw *CaseWriter, exact bool, nOps int, desc map[str
 			if strings.HasPrefix(opT, "OSettle true") && strings.Contains(opT, "(Some (") {
 				cw.Count("partial_fills")
 			}
-			if o, isAsk := op.msg.(*exchange.MsgCreateAskRequest); isAsk && w.vesting[o.AskOrder.Seller] {
+			if o, isAsk := op.msg.(*exchange.MsgCreateAskRequest); isAsk && w.vesting[addrKey(o.AskOrder.Seller)] {
 				cw.Count("ok_order_by_vesting_account")
 			}
-			if o, isBid := op.msg.(*exchange.MsgCreateBidRequest); isBid && w.vesting[o.BidOrder.Buyer] {
+			if o, isBid := op.msg.(*exchange.MsgCreateBidRequest); isBid && w.vesting[addrKey(o.BidOrder.Buyer)] {
 				cw.Count("ok_order_by_vesting_account")
 			}
 			if cs, isCS := op.msg.(*exchange.MsgMarketCommitmentSettleRequest); isCS && cs.MarketId == c02BipsMarket {
@@ -1760,7 +2260,7 @@ func (w *c02World) runHistory(cw *CaseWriter, exact bool, nOps int, desc map[str
 	for i := range w.universe() {
 		accts = append(accts, fmt.Sprintf("%d", i+1))
 	}
-	for i := range c02Denoms {
+	for i := range w.all {
 		denoms = append(denoms, fmt.Sprintf("%d", i+1))
 	}
 	term := fmt.Sprintf("CHist %s %s %s %s %s", coqBool(exact), coqList(accts), coqList(denoms), w.stateT(init), "[\n    "+strings.Join(steps, ";\n    ")+"]")
@@ -1774,9 +2274,107 @@ func (w *c02World) runHistory(cw *CaseWriter, exact bool, nOps int, desc map[str
 	if len(w.vesting) > 0 {
 		cw.Count("histories_with_vesting_account")
 	}
+	if w.bondIn {
+		cw.Count("histories_trading_bond_denom")
+	}
+	if len(w.whales) > 0 {
+		cw.Count("histories_with_whales")
+	}
+	for _, a := range w.accts {
+		if len(a) == 32 {
+			cw.Count("histories_with_32_byte_address")
+			break
+		}
+	}
 	cw.Count(fmt.Sprintf("hist_len_%02d_%02d", (nOps/10)*10, (nOps/10)*10+9))
 	if accepted >= 3 {
 		cw.Nontrivial(strings.Join(sig, ","))
+	}
+}
+
+// countShapes records how often the corners the generator aims at were actually reached.
+func (w *c02World) countShapes(cw *CaseWriter, op *c02Op, ok bool, before *c02Obs) {
+	pre := "refused_"
+	if ok {
+		pre = "ok_"
+	}
+	upper := func(s string) bool { return s != "" && s != strings.ToLower(s) }
+	big := func(c sdk.Coin) bool { return !c.Amount.IsInt64() }
+	bigOrders := func(ids []uint64) bool {
+		for _, id := range ids {
+			if o := before.order(id); o != nil && big(o.GetAssets()) {
+				return true
+			}
+		}
+		return false
+	}
+	switch m := op.msg.(type) {
+	case *exchange.MsgCreateAskRequest:
+		if upper(m.AskOrder.Seller) {
+			cw.Count(pre + "owner_spelled_in_upper_case")
+		}
+		if big(m.AskOrder.Assets) {
+			cw.Count(pre + "order_beyond_64_bits")
+		}
+		if len(addrKey(m.AskOrder.Seller)) == 32 {
+			cw.Count(pre + "order_by_32_byte_address")
+		}
+		if m.AskOrder.Assets.Denom == w.bond {
+			cw.Count(pre + "order_holding_bond_denom")
+		}
+	case *exchange.MsgCreateBidRequest:
+		if upper(m.BidOrder.Buyer) {
+			cw.Count(pre + "owner_spelled_in_upper_case")
+		}
+		if big(m.BidOrder.Assets) {
+			cw.Count(pre + "order_beyond_64_bits")
+		}
+		if len(addrKey(m.BidOrder.Buyer)) == 32 {
+			cw.Count(pre + "order_by_32_byte_address")
+		}
+		if m.BidOrder.Price.Denom == w.bond {
+			cw.Count(pre + "order_holding_bond_denom")
+		}
+	case *exchange.MsgMarketSettleRequest:
+		if bigOrders(append(append([]uint64{}, m.AskOrderIds...), m.BidOrderIds...)) {
+			cw.Count(pre + "settlement_beyond_64_bits")
+		}
+	case *exchange.MsgFillBidsRequest:
+		if bigOrders(m.BidOrderIds) {
+			cw.Count(pre + "settlement_beyond_64_bits")
+		}
+	case *exchange.MsgFillAsksRequest:
+		if bigOrders(m.AskOrderIds) {
+			cw.Count(pre + "settlement_beyond_64_bits")
+		}
+	case *exchange.MsgCommitFundsRequest:
+		if upper(m.Account) {
+			cw.Count(pre + "owner_spelled_in_upper_case")
+		}
+	case *exchange.MsgCreatePaymentRequest:
+		if upper(m.Payment.Source) || upper(m.Payment.Target) {
+			cw.Count(pre + "owner_spelled_in_upper_case")
+		}
+		if m.Payment.ExternalId == "" {
+			cw.Count(pre + "payment_without_external_id")
+			for _, p := range before.pays {
+				if p.ExternalId == "" && sameAddr(p.Source, m.Payment.Source) {
+					cw.Count(pre + "second_payment_without_external_id")
+				}
+			}
+		}
+	case *stakingtypes.MsgDelegate:
+		a := w.aid(m.DelegatorAddress)
+		if before.get(before.holds, a, w.did(m.Amount.Denom)).IsPositive() {
+			cw.Count(pre + "delegate_by_account_with_hold_in_that_denom")
+			free := before.bal(a, w.did(m.Amount.Denom)).Sub(before.get(before.holds, a, w.did(m.Amount.Denom)))
+			if m.Amount.Amount.GT(free) {
+				cw.Count(pre + "delegate_of_held_funds")
+			}
+		}
+		if w.vesting[addrKey(m.DelegatorAddress)] {
+			cw.Count(pre + "delegate_by_vesting_account")
+		}
 	}
 }
 
@@ -1787,6 +2385,16 @@ func TestC02(t *testing.T) {
 	base = base.WithBlockTime(time.Unix(1_700_000_000, 0).UTC()) // vesting schedules are relative to it
 	w := &c02World{t: t, app: app, r: r, admin: addrN(299)}
 	c02Setup(t, app, base, w.admin)
+	var err error
+	if w.bond, err = app.StakingKeeper.BondDenom(base); err != nil {
+		t.Fatalf("bond denom: %v", err)
+	}
+	vals, err := app.StakingKeeper.GetAllValidators(base)
+	if err != nil || len(vals) == 0 {
+		t.Fatalf("validators: %v %d", err, len(vals))
+	}
+	w.val = vals[0].GetOperator()
+	w.all = append(append([]string{}, c02Denoms...), w.bond)
 
 	nHist := scale(160, 4000)
 	for h := 0; h < nHist; h++ {
